@@ -19,7 +19,12 @@ def run_one(m, check_tests=False):
         src = open(p).read()
         if src.count(m["old"]) != 1:
             return "SKIP (anchor text occurs %d times)" % src.count(m["old"])
-        open(p, "w").write(src.replace(m["old"], m["new"]))
+        src = src.replace(m["old"], m["new"])
+        for (o2, n2) in m.get("extra", []):
+            if src.count(o2) != 1:
+                return "SKIP (extra anchor occurs %d times)" % src.count(o2)
+            src = src.replace(o2, n2)
+        open(p, "w").write(src)
         env = dict(os.environ, CARGO_NET_OFFLINE="true", CARGO_TARGET_DIR=os.path.join(V, ".cache", "target-mut"))
         r = sh(["cargo", "check", "--offline", "--all-features", "-q"], cwd=wt, env=env)
         if r.returncode != 0:
